@@ -687,6 +687,7 @@ func call(f func() string, timeout time.Duration) (class string, result string) 
 			buf := make([]byte, 1<<20)
 			os.Stderr.Write(buf[:runtime.Stack(buf, true)])
 		}
+		hangs++
 		return "hang", "RHung"
 	}
 }
@@ -787,12 +788,21 @@ func executePile(h history, info *hcommon.Info) string {
 	return g.App("mkPileCase", g.List(obs))
 }
 
+// hangs counts calls that did not return in this process.  Every one costs
+// its full timeout and leaves a goroutine behind; after a few, the remaining
+// histories are not run (recorded as "not-run-after-hangs").
+var hangs int
+
 func (area) Execute(raw json.RawMessage) (term string, info *hcommon.Info, err error) {
 	var h history
 	if err := json.Unmarshal(raw, &h); err != nil {
 		return "", nil, err
 	}
 	info = hcommon.NewInfo()
+	if hangs >= 3 {
+		info.Outs["not-run-after-hangs"]++
+		return g.App("mkCase", "[]"), info, nil
+	}
 	if h.Pile {
 		return executePile(h, info), info, nil
 	}
@@ -829,7 +839,7 @@ func (area) Execute(raw json.RawMessage) (term string, info *hcommon.Info, err e
 				sawRemovedDirCall = true
 			}
 			before := w.ndirs()
-			class, result = call(func() string { return w.run(o) }, 5*time.Second)
+			class, result = call(func() string { return w.run(o) }, 3*time.Second)
 			_ = before
 		default:
 			continue // unknown operation: no-op (keeps minimised histories valid)
